@@ -9,3 +9,68 @@ package masks
 //@ // values are applied to an unexported receiver state): calls through them are dispatched over those closures
 //@ callback ResponseFilterOption: closed
 //@ callback FieldUpdaterOption: closed
+//@
+//@ property C06
+//@ // Reads never mutate: FilterClone works on a clone.  msgval(m) is the abstract content of a message (two live
+//@ // messages are proto.Equal iff they have the same type and the same msgval); filtered(v, paths) is the content after
+//@ // fmutils.Filter — the projection itself is the library's (assumed), the plumbing around it is what is proved.
+//@ pure func maskFits(fields, msg) = fields == nil || isnil(msg) || pathsvalid(fields.Paths, msg)
+//@
+//@ func (*ResponseFilter).FilterClone(msg) (res)
+//@   requires recv != nil
+//@   requires [mask-valid] maskFits(recv.fields, msg)     // whoever builds the filter from a request must have validated the mask
+//@   ensures [nil-mask] old(recv.fields) == nil ==> equalmsg(res, msg)
+//@   ensures [nil-msg] isnil(msg) ==> isnil(res)
+//@   ensures [clone] old(recv.fields) != nil && !isnil(msg) ==> fresh(res) && sametype(res, msg) && !isnil(res)
+//@   ensures [projection] old(recv.fields) != nil && !isnil(msg) && len(old(recv.fields.Paths)) > 0 ==> msgval(res) == filtered(old(msgval(msg)), old(recv.fields.Paths))
+//@   ensures [empty-mask] (old(recv.writableFields) == nil || len(old(recv.writableFields.Paths)) > 0) && old(recv.updateMask) != nil && len(old(recv.updateMask.Paths)) == 0 ==> msgval(dst) == old(msgval(dst))
+//@   ensures [argument-untouched] msgval(msg) == old(msgval(msg))
+//@   modifies nothing
+//@
+//@ func (*ResponseFilter).Filter(msg)
+//@   requires recv != nil
+//@   requires [mask-valid] maskFits(recv.fields, msg)
+//@   ensures [nil-mask] old(recv.fields) == nil ==> msgval(msg) == old(msgval(msg))
+//@   ensures [projection] old(recv.fields) != nil && !isnil(msg) && len(old(recv.fields.Paths)) > 0 ==> msgval(msg) == filtered(old(msgval(msg)), old(recv.fields.Paths))
+//@   ensures [empty-mask] (old(recv.writableFields) == nil || len(old(recv.writableFields.Paths)) > 0) && old(recv.updateMask) != nil && len(old(recv.updateMask.Paths)) == 0 ==> msgval(dst) == old(msgval(dst))
+//@   modifies msgs
+//@
+//@ func (*ResponseFilter).Validate(msg) (err)
+//@   requires recv != nil
+//@   ensures [verdict] (err == nil) == maskFits(recv.fields, msg) || isnil(msg)
+//@   modifies nothing
+//@
+//@ property C05
+//@ // the package's default options only set the field name used in error messages (the variable is exported but this
+//@ // module never assigns it; its initialiser is `[]FieldUpdaterOption{WithUpdateMaskFieldName("update_mask")}`)
+//@ axiom defaultOptionsOnlyName: forall j int :: 0 <= j && j < len(DefaultFieldUpdateOptions) ==> DefaultFieldUpdateOptions[j] != nil && isfunc(DefaultFieldUpdateOptions[j], WithUpdateMaskFieldName$1)
+//@
+//@ func NewFieldUpdater(opts) (f)
+//@   inline
+//@   loop 0:
+//@     invariant f.updateMask == nil && f.writableFields == nil && f.resetMask == nil && f.intersectionMask == nil
+//@
+//@ // which update paths Validate lets through (C05: "a mask that names unknown fields or fields outside W is rejected ...
+//@ // and nothing changes": rejection happens before anything is read or written)
+//@ func (*FieldUpdater).Validate(m) (err)
+//@   requires recv != nil
+//@   ensures [unknown-fields] old(recv.updateMask) != nil && !pathsvalid(old(recv.updateMask.Paths), m) && !isnil(m) ==> err != nil
+//@   ensures [reset-mask] old(recv.resetMask) != nil && !pathsvalid(old(recv.resetMask.Paths), m) && !isnil(m) ==> err != nil
+//@   ensures [masks-kept] recv.updateMask == old(recv.updateMask) && recv.writableFields == old(recv.writableFields) && recv.resetMask == old(recv.resetMask)
+//@   modifies FieldUpdater.intersectionMask
+//@
+//@ // Merge writes only the two messages it is given (dst: the new value being built; src: the caller's message, which it
+//@ // filters in place); with an empty writable set or an empty (non-nil) update mask it writes nothing at all
+//@ func (*FieldUpdater).Merge(dst, src)
+//@   requires recv != nil && !isnil(dst) && !isnil(src) && ref(dst) != ref(src)
+//@   requires [reset-mask-valid] recv.resetMask != nil ==> pathsvalid(recv.resetMask.Paths, dst)     // established by Validate
+//@   ensures [empty-writable] old(recv.writableFields) != nil && len(old(recv.writableFields.Paths)) == 0 ==> msgval(dst) == old(msgval(dst)) && msgval(src) == old(msgval(src))
+//@   ensures [empty-mask] (old(recv.writableFields) == nil || len(old(recv.writableFields.Paths)) > 0) && old(recv.updateMask) != nil && len(old(recv.updateMask.Paths)) == 0 ==> msgval(dst) == old(msgval(dst))
+//@   ensures [frame] msgframe(dst, src)
+//@   modifies msgs, ghost$msg
+//@
+//@ // clears from dst the fields named by the mask that src does not have (reflection walk; assumed to write dst only)
+//@ func pruneEmpty(dst, src, mask)
+//@   trusted
+//@   trusts msgframe(dst)
+//@   modifies msgs, ghost$msg
